@@ -49,6 +49,23 @@ def build(n, chains, rings=(), detour=False):
     for rg in rings:
         for a, b in zip(rg, list(rg[1:]) + [rg[0]]):
             assert xtuml.relate(inst[a], inst[b], 4, 'prev')
+    if detour and n >= 2 and not rings:
+        # relate attempts on the finished arrangement: a refused one leaves no trace, an accepted one is undone at once
+        linked = set((a, b) for ch in chains for a, b in zip(ch, ch[1:]))
+        for x in range(n):
+            for y in range(n):
+                if x == y or (n >= 5 and (x + 2 * y + n) % 3):
+                    continue
+                for phrase in ('prev', 'next'):
+                    pair = (x, y) if phrase == 'prev' else (y, x)
+                    if pair in linked:
+                        continue               # relating a linked pair again is not part of this history
+                    try:
+                        ok = xtuml.relate(inst[x], inst[y], 4, phrase)
+                    except xtuml.RelateException:
+                        continue
+                    if ok:
+                        assert xtuml.unrelate(inst[x], inst[y], 4, phrase)
     return m, inst
 
 
